@@ -66,13 +66,30 @@ def first_connections(rnd):
     # connect() is made and is released only by that assignment
     for at in range(0, 6):
         sc("abandoned-at-%d-iterator-released-by-the-next-connect" % at, [("data", 0, hs + E(1, b"one", fin=0)), ("data", 10, E(9, b"p")), ("timeout", 5120)], app={at: [("abandon", "hold")]})
+    # the same, in histories where the library has work pending at the abandoned event: the server's Close (the echo is due
+    # after the Closing event), the client's own Close (the handshake is pending), a Ping (pong already written), a compressed
+    # message
+    bases = [("server-close", [("data", 0, hs + E(1, b"one")), ("data", 10, E(8, ref6455.close_payload(1001, b"going away"))), ("timeout", 5120)], {}, {}),
+             ("client-close", [("data", 0, hs + E(1, b"one")), ("timeout", 5120), ("data", 10, E(1, b"two")), ("timeout", 5120)], {3: [("close", 1000, b"bye")]}, {}),
+             ("server-close-compressed", [("data", 0, hsz + E(1, z1, rsv=4)), ("data", 10, E(8, b"\x03\xe8")), ("timeout", 5120)], {}, dict(ws_compress=True))]
+    for bname, bsteps, bapp, bkw in bases:
+        for at in range(2, 7):
+            mech = rnd.choice(["hold", "hold", "break", "raise", "close", "with"])
+            app = {k: list(v) for k, v in bapp.items()}
+            app[at] = app.get(at, []) + [("abandon", mech)]
+            sc("abandoned-at-%d-of-%s-%s" % (at, bname, "iterator-released-by-the-next-connect" if mech == "hold" else mech), bsteps, app=app, **bkw)
     return out
 
 
-def second_connection(rnd, compress):
+CTORS = [{}, {}, dict(protocols=["chat.v1", "chat.v2"]), dict(protocols=["mqtt"], agent="Agent/1.0 (verif)"), dict(agent="Agent/2.0")]
+
+
+def second_connection(rnd, compress, proto=None):
     key = bytes(bytearray(rnd.getrandbits(8) for _ in range(16)))
     acc = simnet.accept_for(key)
     extra = b"Sec-WebSocket-Extensions: permessage-deflate\r\n" if compress else b""
+    if proto:
+        extra += b"Sec-WebSocket-Protocol: " + proto + b"\r\n"
     hs = ref6455.handshake_response(acc, extra=extra)
     body = E(0x1, "héllo ".encode(), fin=0) + E(9, b"k") + E(0, "wörld".encode()) + E(2, b"\x00\x01")
     ztape = []
@@ -115,7 +132,9 @@ def _pair_worker(args):
     try:
         import lomond.websocket as W
         ws_kwargs = dict(compress=True) if (sc1.get("ws_compress") or sc2.get("ztape")) else {}
-        ws = W.WebSocket("ws://example.test/chat", **ws_kwargs)
+        # the rest of the object's configuration (constructor arguments): the fresh object gets equal values in new containers
+        ctor = lambda: dict(ws_kwargs, **{k: (list(v) if isinstance(v, list) else v) for k, v in (sc1.get("_ctor") or {}).items()})
+        ws = W.WebSocket("ws://example.test/chat", **ctor())
         # custom headers belong to the object's configuration (not to a connection): the fresh object gets the same ones
         obj_headers = sc1.get("_obj_headers") or ()
         for h, v in obj_headers:
@@ -127,7 +146,7 @@ def _pair_worker(args):
         b["_ws_object"] = ws
         r2 = simnet.run_impl(b)
         fresh = dict(sc2)
-        fresh["_ws_object"] = W.WebSocket("ws://example.test/chat", **ws_kwargs)
+        fresh["_ws_object"] = W.WebSocket("ws://example.test/chat", **ctor())
         for h, v in obj_headers:
             fresh["_ws_object"].add_header(h, v)
         r3 = simnet.run_impl(fresh)
@@ -149,7 +168,13 @@ def run(rep, info, model, tier, seed):
                 if rnd.random() < 0.3:
                     # the application has given the object custom headers (add_header) before connecting
                     sc1 = dict(sc1, _obj_headers=rnd.choice([[(b"X-Custom", b"1")], [(b"Authorization", b"Bearer abc.def"), (b"X-Two", b"a b")]]))
-                pairs.append((label, sc1, second_connection(rnd, compress)))
+                ctor = rnd.choice(CTORS)
+                proto = None
+                if ctor:
+                    sc1 = dict(sc1, _ctor=ctor)
+                    if ctor.get("protocols") and rnd.random() < 0.7:
+                        proto = ctor["protocols"][-1].encode()
+                pairs.append((label, sc1, second_connection(rnd, compress, proto)))
     res = fam.pool().map(_pair_worker, pairs, chunksize=4)
     mod = model.run([simnet.to_sx(p[2]) for p in pairs]) if model is not None else [None] * len(pairs)
     rep.watch_extraction(model, [simnet.to_sx(p[2]) for p in pairs[:30]])
@@ -158,7 +183,8 @@ def run(rep, info, model, tier, seed):
     for (label, sc1, sc2), r, m in zip(pairs, res, mod):
         rep.add_case(fam.fingerprint(sc1) + fam.fingerprint(sc2))
         rep.traces_vs_impl += 1
-        rep.count("previous_ending", label if not label.startswith("abandoned") else "abandoned-" + label.split("-")[-1])
+        rep.count("previous_ending", label if not label.startswith("abandoned") else "abandoned-" + ("hold" if label.endswith("next-connect") else label.split("-")[-1]))
+        rep.count("constructor", ",".join(sorted((sc1.get("_ctor") or {}).keys())) or "defaults")
         if isinstance(r, str):
             rep.broken("harness error in C17: " + r[-600:])
             continue
@@ -188,7 +214,7 @@ def run(rep, info, model, tier, seed):
     # the "fresh" object above lives in a process that has made connections before.  Where the model disagrees with it although
     # the second connection and that object agree, the baseline is taken again from a WebSocket constructed in a fresh interpreter
     for label, sc1, sc2, t2 in suspects:
-        kw = dict(compress=True) if (sc1.get("ws_compress") or sc2.get("ztape")) else {}
+        kw = dict(dict(compress=True) if (sc1.get("ws_compress") or sc2.get("ztape")) else {}, **(sc1.get("_ctor") or {}))
         base = fam.fresh_run([dict(sc2, _kw=kw, _obj_headers=sc1.get("_obj_headers"))], runner="harness.c17:_fresh_single")[0]
         if base is not None and base != t2:
             k = 0
@@ -200,7 +226,7 @@ def run(rep, info, model, tier, seed):
     if dis and not rep.violations:
         rep.broken("correspondence C17: the model disagrees with a fresh WebSocket on %d second-connection scenarios; first %r" % (dis, first))
     rep.families.append(dict(name="C17:reconnect-pairs", cases=len(pairs), disagreements=dis,
-                             rule="connection 1 on a WebSocket object ends mid-header / mid-frame / inside a UTF-8 character / mid-fragmented message / mid-compression-context with takeover / while closing / close timeout / gracefully / rejected / connect failure / protocol error / unresponsive / abandoned at each event by each mechanism; connection 2 runs a fixed battery (fragmented text with a ping inside, binary, optional compression, sends, timers, close handshake) under random segmentation; its full trace and its upgrade request must equal a freshly constructed object's, the handshake keys must differ"))
+                             rule="connection 1 on a WebSocket object ends mid-header / mid-frame / inside a UTF-8 character / mid-fragmented message / mid-compression-context with takeover / while closing / close timeout / gracefully / rejected / connect failure / protocol error / unresponsive / abandoned at each event by each mechanism (also at the events of a server-initiated close, of a pending client close and of a compressed history, the iterator kept until the next connect()); the object constructed with or without protocols / agent; connection 2 runs a fixed battery (fragmented text with a ping inside, binary, optional compression, sends, timers, close handshake) under random segmentation; its full trace and its upgrade request must equal a freshly constructed object's, the handshake keys must differ"))
     # the regenerated inventory, read directly: it names the offending object when the tie proof breaks
     try:
         import re
